@@ -346,12 +346,11 @@ func addMethodCaller(aux *Aux, fname, qualifier, key string, caller slip.Caller,
 		meth = &slip.Method{Name: fname, Doc: fd}
 		aux.methods[key] = meth
 	}
-	var c *slip.Combination
+	// Effective methods already handed to calls in progress share the
+	// combination so change a copy instead of the combination itself.
+	c := &slip.Combination{}
 	if 0 < len(meth.Combinations) {
-		c = meth.Combinations[0]
-	} else {
-		c = &slip.Combination{}
-		meth.Combinations = []*slip.Combination{c}
+		*c = *meth.Combinations[0]
 	}
 	switch qualifier {
 	case "":
@@ -363,6 +362,7 @@ func addMethodCaller(aux *Aux, fname, qualifier, key string, caller slip.Caller,
 	case ":around":
 		c.Wrap = caller
 	}
+	meth.Combinations = []*slip.Combination{c}
 	if 0 < len(aux.cache) {
 		aux.cache = map[string]*slip.Method{}
 	}
